@@ -871,6 +871,7 @@ def emit_module(m, roots=None):
 
 def emit_func(E, f):
     L = []
+    f.cast_origin = {}
     decls = []
     declared = set(f.lname(p) for p, _ in f.params)
     def declare(name, ty):
@@ -955,6 +956,8 @@ def emit_func(E, f):
             elif op in CAST_OPS:
                 c = declare(ins.res, ins.ty)
                 L.append('  %s = %s;' % (c, E.cast(op, ins.x, ins.ty, f)))
+                if op == 'bitcast' and ins.x.ty.k == 'ptr' and ins.ty.k == 'ptr':
+                    f.cast_origin[ins.res] = ins.x.ty.to
             elif op in BIN_OPS:
                 c = declare(ins.res, ins.ty)
                 L.append('  %s = %s;' % (c, E.binop(op, ins.ty, ins.a, ins.b, f, ins.flags)))
@@ -1108,7 +1111,19 @@ def emit_call(E, f, ins, L, declare):
            or name.startswith('llvm.assume') or name.startswith('llvm.invariant'):
             return
         A = [E.val(a, f) if a is not None else None for a in args]
-        if name.startswith('llvm.memcpy.'): L.append('  ir_memcpy((uint8_t*)%s, (uint8_t*)%s, %s);' % (A[0], A[1], A[2])); return
+        if name.startswith('llvm.memcpy.'):
+            # constant-size copy between two pointers that were bit-cast from the same object type: typed assignment
+            # (identical effect when the size equals sizeof(T); keeps doubles/pointers word-level for the solver)
+            d, s_, n = args[0], args[1], args[2]
+            def origin(v):
+                if v.k == 'local': return f.cast_origin.get(v.name)
+                if v.k == 'ccast' and v.op == 'bitcast' and v.x.ty is not None and v.x.ty.k == 'ptr': return v.x.ty.to
+                return None
+            td, ts = origin(d), origin(s_)
+            if n.k == 'int' and td is not None and ts is not None and tstr(td) == tstr(ts) and td.k in ('named', 'struct', 'arr', 'int', 'double', 'float', 'ptr'):
+                ct = E.ct(td)
+                L.append('  if (%s == sizeof(%s)) *(%s*)%s = *(%s*)%s; else ir_memcpy((uint8_t*)%s, (uint8_t*)%s, %s);' % (A[2], ct, ct, A[0], ct, A[1], A[0], A[1], A[2])); return
+            L.append('  ir_memcpy((uint8_t*)%s, (uint8_t*)%s, %s);' % (A[0], A[1], A[2])); return
         if name.startswith('llvm.memmove.'): L.append('  ir_memmove((uint8_t*)%s, (uint8_t*)%s, %s);' % (A[0], A[1], A[2])); return
         if name.startswith('llvm.memset.'): L.append('  ir_memset((uint8_t*)%s, %s, %s);' % (A[0], A[1], A[2])); return
         if name == 'llvm.trap': L.append('  __CPROVER_assert(0, "llvm.trap"); __CPROVER_assume(0);'); return
